@@ -19,6 +19,10 @@ var stubsL = []string{"kernel file system -> simfs (in-memory, explicit durabili
 var realL = []string{"store (all of it, unmodified; import of os redirected)", "golang.org/x/crypto argon2/scrypt", "gopkg.in/spreadspace/scryptauth.v2", "gopkg.in/yaml.v3"}
 var assumeL = []string{"simfs follows POSIX for the operations store uses (differentially tested against the kernel in setup)", "power-loss model: file data durable only after fsync(file); directory entry operations durable only after fsync(dir); rename never loses the file", "go1.26.8 runtime (needed for testing/synctest); module language version stays go 1.23"}
 
+var realA = []string{"cmd/whawty-auth: store.go (dispatcher, upgraders), hooks.go, policy.go, web_api.go handlers + mux, web_session.go, sasl_socket.go, ldap.go (unmodified; imports of os, net, os/exec, os/signal redirected, multi-way selects made scheduler-ordered)", "store, sasl", "glauth LDAP server loop, go-asn1-ber, zxcvbn-go, yaml.v3, x/crypto"}
+var stubsA = []string{"goroutine scheduling -> baton scheduler (service loops parked at rewritten selects, clients at gates) + synctest quiescence", "file system -> simfs", "sockets -> simnet (immediate delivery unless the property schedules bytes)", "fork/exec -> simexec", "signals -> simsignal", "clock/timers -> synctest", "net/http server connection handling -> handlers called through the real mux with httptest recorders", "http client transport (remote upgrade) -> simulated round-tripper to another in-bubble agent"}
+var assumeA = []string{"under the baton scheduler one action is taken between two quiescent points; a goroutine blocked in a real channel operation is woken by hand-off only", "go1.26.8 runtime; timer semantics of the module's go 1.23 line"}
+
 var propMeta = map[string]propInfo{
 	"C01": {Pkg: "store", Level: "exploration", QuickRuns: 4000, QuickBudgetS: 25,
 		Rule:  "one evaluation = one seeded history (5-80 ops over 1-4 users, 1-3 parameter sets, 1-2 store instances with different defaults, clock steps) checked step by step against the store model incl. near-miss sweeps after every write; distinct non-trivial = distinct (configuration, history) with >= 2 acknowledged writes",
@@ -43,6 +47,9 @@ var propMeta = map[string]propInfo{
 	"C20": {Pkg: "pam", Level: "exploration", QuickRuns: 400000, QuickBudgetS: 20,
 		Rule:  "one evaluation = one simulated pam_sm_authenticate call: user/password lengths from {0,1,5,255,256,257,300,4096}, option combinations, PAM stack behaviours, and a scripted agent (14 reply texts x padding up to 65000 x declared-length faults x cut replies, fragmented with delays on both sides of the timeout, reply before/after/never, early close, reset, agent not reading, EPIPE) over a fault-injecting syscall layer (EINTR, short reads/writes, stale and ambient errno); a third of the runs are fault-free; distinct non-trivial = distinct decision vectors of runs in which request bytes were exchanged",
 		Real:  []string{"pam/pam_whawty.c compiled unmodified (clang -fsanitize=address,undefined)"}, Stub: []string{"libpam (pam_get_user, pam_get_item, pam_set_item, pam_prompt, pam_vsyslog) -> driver.c", "socket/connect/select/read/write/close -> discrete-event syscall simulator (macro redirection via -include shim.h)", "the agent -> scripted reply bytes with timing"}, Assumptions: []string{"not injected: permanent failure of select(), descriptor numbers >= FD_SETSIZE", "stub PAM headers carry Linux-PAM's constants and the two _pam_macros.h macros the module uses"}},
+	"C10": {Pkg: "agent", Level: "exploration", QuickRuns: 3000, QuickBudgetS: 30,
+		Rule:  "one evaluation = one simulated agent run: 1-14 clients x 1-5 calls (authenticate / add / update / remove / set-admin / list / check, through the agent interface and the sasl, LDAP, basic-auth and API frontends) against the real dispatcher, hooks loop and upgraders; upgrade mode off/local/remote (master delivering, refusing, stalled, slow, 5xx), hooks fast/failing/hanging/unstartable, dispatcher slowness 1-40 (queues fill to capacity); every arrival order and select choice comes from the tape; after the load a fair drain decides exactly whether every call returned; distinct non-trivial = distinct (sequence of dispatcher/hook-loop picks, mode, client and call counts)",
+		Real:  realA, Stub: stubsA, Assumptions: assumeA},
 	"C08": {Pkg: "store", Level: "fault_enumeration", QuickRuns: 400, QuickBudgetS: 40,
 		Rule:  "one evaluation = one crash point: for a generated scenario (store with 1-4 reference-written users, aux data of every shape, one init/add/update) EVERY simfs operation boundary of the call and three prefixes inside every write is a crash point; at each, the process-kill image and the power-loss images (all of them when <= limit, else DFS prefix + sampled) are opened with a fresh store and judged by the recovery oracle; distinct non-trivial = distinct (configuration, operation, population, aux size) scenarios swept",
 		Real:  realL, Stub: stubsL, Assumptions: assumeL},
